@@ -35,9 +35,9 @@
     is ever emitted without a primary one (secondary_never_alone); validate_error_located.  These are
     covered on every run by the correspondence check and the Spec oracle only. *)
 From Coq Require Import List NArith.
-From ApiFu Require Import Base.Sexp Vld.Ast Vld.Inspect Vld.TypeInfoModel Vld.TypeInfoPure Vld.ValidatorModel Vld.ValidSpec
+From ApiFu Require Import Base.Sexp Vld.Ast Vld.Inspect Vld.InspectProofs Vld.TypeInfoModel Vld.TypeInfoPure Vld.ValidatorModel Vld.ValidSpec
      Vld.Hyps Vld.ProofsCommon Vld.ProofsDirectives Vld.ProofsArguments Vld.ProofsFragDecl Vld.ProofsValues
-     Vld.ProofsCycles Vld.ProofsVarsOrder Vld.ProofsOrder Vld.ProofsOperations Vld.ProofsTotal Vld.Enumerate Vld.ProofsFields Vld.ProofsMemo Vld.ValidatorProofs Vld.ProofsSpreads Vld.ProofsDepth Vld.ProofsDepthRule Vld.MemoTransfer Vld.Witness.
+     Vld.ProofsCycles Vld.ProofsVarsOrder Vld.ProofsOrder Vld.ProofsOperations Vld.ProofsTotal Vld.Enumerate Vld.ProofsFields Vld.ProofsMemo Vld.ValidatorProofs Vld.ProofsSpreads Vld.ProofsDepth Vld.ProofsDepthRule Vld.MemoTransfer Vld.ProofsMemoConverse Vld.MemoEquiv Vld.ProofsTypeInfoValues Vld.Witness.
 Import ListNotations.
 
 (** ** determinism: acceptance is a function of schema, features and document alone *)
@@ -111,6 +111,62 @@ Theorem C04_spreads_silent_acyclic : forall pi S F A,
   order_ok pi -> rule_fragment_spreads repaired pi S F A = Done [] ->
   forall n, In n (frag_names A) -> ~ exists x, reach A n x /\ edge A x n.
 Proof. exact silent_acyclic. Qed.
+
+(** ** the memo never hides a conflict: the validator as it is = the memo-free pipeline
+    For documents whose field occurrences have pairwise distinct positions ([field_positions_distinct]:
+    the memo identifies a pair of fields by their two positions; true of parsed documents by
+    C06_parse_pos_injective / C06_parse_bytes_pos_injective).  After a silent memoised run the two
+    sets of checked pairs are a certificate (every pair in them passed its local checks and its
+    sub-pairs are again in the sets or passed theirs: ProofsMemoConverse.v); with the depth bound
+    (accepted documents have no spread cycle) the plain pass then answers "ok".  Hence determinism
+    for the model the check ties to the code. *)
+Theorem C04_memo_equiv : forall pi S F D,
+  order_ok pi -> field_positions_distinct (pti_doc (q_unwrap_obj repaired) S F D) ->
+  (validate_model_memo repaired pi S F D = Done [] <-> validate_model repaired pi S F D = Done []).
+Proof. exact validate_memo_iff. Qed.
+Theorem C04_memo_accept_deterministic : forall pi1 pi2 S F D,
+  order_ok pi1 -> order_ok pi2 -> field_positions_distinct (pti_doc (q_unwrap_obj repaired) S F D) ->
+  (validate_model_memo repaired pi1 S F D = Done [] <-> validate_model_memo repaired pi2 S F D = Done []).
+Proof. exact validate_memo_accept_order. Qed.
+Theorem C04_memo_verdict_deterministic : forall pi1 pi2 S F D,
+  order_ok pi1 -> order_ok pi2 -> field_positions_distinct (pti_doc (q_unwrap_obj repaired) S F D) ->
+  (validate_model_memo repaired pi1 S F D = Done [] /\ validate_model_memo repaired pi2 S F D = Done []) \/
+  (exists e1 l1 e2 l2, validate_model_memo repaired pi1 S F D = Done (e1 :: l1) /\ validate_model_memo repaired pi2 S F D = Done (e2 :: l2)).
+Proof. exact validate_memo_verdict_order. Qed.
+(** the rule-level statement, for any quirks: a silent memoised overlapping-fields pass implies a
+    silent plain one, given the depth bound for the collected fields *)
+Theorem C04_memo_never_hides_a_conflict : forall pi, order_ok pi -> forall q S D,
+  (forall x y, In x (occs D) -> In y (occs D) -> sel_pos (fst3 x) = sel_pos (fst3 y) -> x = y) ->
+  forall F, (forall ss f, In ss (all_subs D) -> InC D ss f -> Hle D (max_depth D) f) ->
+  rule_fields_m q pi S F D = Done [] -> rule_fields q pi S F D = Done [].
+Proof. exact memo_converse_rule. Qed.
+
+(** ** what NewTypeInfo records for argument values (interface to C05's bridge Val/BridgeC04Doc.v)
+    The expected type of an argument value is the declared argument type with the location's default
+    flag; of a list item the item type; of an object field the declared field type with the field's
+    default flag (looking through list wrappers); and the errors the variables rule emits while it
+    walks one annotated argument value are [usage_errs], a recursion over the UNannotated value of
+    the shape of C05's [usage_ok]. *)
+Theorem C04_typeinfo_arguments : forall qo S defs dnil args,
+  ti_args qo S defs dnil args =
+  map (fun a => {| a_name := a_name a; a_pos := a_pos a;
+                   a_value := match match defs with Some l => assoc (a_name a) l | None => None end with
+                              | Some def => ti_value qo S (Some (in_type def)) (dnil (in_default def)) (a_value a)
+                              | None => ti_value qo S None false (a_value a)
+                              end |}) args.
+Proof. exact ti_args_spec. Qed.
+Theorem C04_typeinfo_list_items : forall qo S sc e d a vs p,
+  ti_value_in qo S sc e d (VList a vs p) =
+  VList {| va_expected := e; va_default := d; va_scalar := sc |}
+        (map (ti_value_in qo S (nested_mark S sc e (match list_item e with Some _ => true | None => false end)) (list_item e) false) vs) p.
+Proof. exact ti_value_list. Qed.
+Theorem C04_typeinfo_object_fields : forall qo S sc e d a fs p,
+  ti_value_in qo S sc e d (VObject a fs p) =
+  VObject {| va_expected := e; va_default := d; va_scalar := sc |} (map (object_field qo S sc e) fs) p.
+Proof. exact ti_value_object. Qed.
+Theorem C04_variable_usages_in_value : forall qo S vars v sc e dd,
+  flat_map (var_fe vars) (vnodes var_g (tree_value (ti_value_in qo S sc e dd v))) = usage_errs qo S vars sc e dd v.
+Proof. exact vars_value_errs. Qed.
 
 (** ** the pipeline *)
 (** NewTypeInfo never indexes an empty scope stack *)
@@ -294,6 +350,14 @@ Print Assumptions C04_memo_accepted_valid.
 Print Assumptions C04_depth_bound_suffices.
 Print Assumptions C04_no_depth_error_without_cycle.
 Print Assumptions C04_spreads_silent_acyclic.
+Print Assumptions C04_memo_equiv.
+Print Assumptions C04_memo_accept_deterministic.
+Print Assumptions C04_memo_verdict_deterministic.
+Print Assumptions C04_memo_never_hides_a_conflict.
+Print Assumptions C04_typeinfo_arguments.
+Print Assumptions C04_typeinfo_list_items.
+Print Assumptions C04_typeinfo_object_fields.
+Print Assumptions C04_variable_usages_in_value.
 Print Assumptions C04_type_info_total.
 Print Assumptions C04_accepted_iff_rules_silent.
 Print Assumptions C04_all_rules_silent.
